@@ -11,8 +11,9 @@ import DDProofs.ReachTotal
 import DDProofs.Reach
 import DDProofs.DynRejectedExpr
 import DDProofs.DynExample
-import DDProofs.OrderAbs
+import DDProofs.RejectedOrder
 import DDProps.C14
+import DD.Dump
 namespace DD
 
 /-- C17 (ITE): arbitrary integers as operands — unknown nodes included — never damage the
@@ -303,5 +304,61 @@ theorem C17_undeclare_rejected (m m' : Mgr) (vrs : List String) (hI : Inv m) (hO
 
 example : undeclareVars ["b", "a"] undeclExM = (.error .value, undeclExM) :=
   C14_undeclare_refuses _ _ ⟨"a", by simp, Or.inr undeclExM_a⟩
+
+/-- C17 (bad order, `swap`): `swap(x, y, levels)` whose levels are not two adjacent valid levels,
+or with an undeclared name, raises `ValueError` and changes NOTHING -/
+theorem C17_swap_bad_args (m : Mgr) :
+    (∀ x y : Int, ¬ (0 ≤ x ∧ x < m.nvars ∧ 0 ≤ y ∧ y < m.nvars ∧ (y - x = 1 ∨ x - y = 1)) →
+      swap (.level x) (.level y) true m = (.error .value, m)) ∧
+    (∀ (s : String) (ya : VarOrLevel), m.tbl.vars[s]? = none →
+      swap (.name s) ya true m = (.error .value, m)) :=
+  ⟨fun x y h => swap_given_bad_levels m x y h, fun s ya h => swap_unknown_name m s ya h⟩
+
+/-- C17 (bad order, the public `swap(x, y)`): it runs the full collection BEFORE validating its
+arguments, so a refused call leaves the state of `collect_garbage()`: good again for the same
+ledger, everything the user holds kept with its meaning (`GcFullPost`, C06) -/
+theorem C17_swap_public_bad_args (m : Mgr) (ext : Nat → Nat) (h : GoodState m ext) (x y : Int)
+    (hbad : ¬ (0 ≤ x ∧ x < m.nvars ∧ 0 ≤ y ∧ y < m.nvars ∧ (y - x = 1 ∨ x - y = 1))) :
+    ∃ m', swap (.level x) (.level y) false m = (.error .value, m') ∧ GcFullPost m ext m' ∧
+      GoodState m' ext :=
+  swap_public_rejected m ext h x y hbad
+
+/-- C17 (bad order, `reorder(bdd, order)`): an order that does not list every variable raises
+`ValueError` and changes NOTHING -/
+theorem C17_reorder_bad_order (m : Mgr) (order : List (String × Int)) (h : m.nvars ≠ order.length) :
+    reorder (some order) m = (.error .value, m) :=
+  reorder_bad_length m order h
+
+example : swap (.level 0) (.level 2) true exM = (.error .value, exM) :=
+  (C17_swap_bad_args exM).1 0 2 (by decide)
+example : reorder (some [("a", 0)]) exM = (.error .value, exM) :=
+  C17_reorder_bad_order exM _ (by decide)
+
+/-! ## unreadable files — what is and what is not a theorem
+
+* A file that cannot be opened or unpickled (`OSError`, `UnpicklingError`, JSON syntax) fails in
+  Python BEFORE any method of the manager runs; the models of `load` (`loadPickle`, `loadJson`,
+  `loadDddmp`) take the file's CONTENT as argument, so this kind of failure has no counterpart in
+  the model: nothing to prove, the correspondence check (C12: "unreadable / wrong-extension
+  files") observes the manager after the exception.
+* A wrong file extension is refused by a function that does not see the manager at all
+  (`bddLoadKind`, `autorefLoadKind` : `String → Except Err FileKind`): stated below.
+* `dddmp.load` builds a FRESH manager (`loadDddmp : DddmpFile → Except Err Mgr`): a refused file
+  (`C16_unsupported_varinfo`) leaves no manager behind.
+* A readable file with ILL-FORMED content loaded into an existing manager (`loadPickle` /
+  `loadJson` failing half-way): NOT covered by any existing theorem (C12 is proved for
+  well-formed files only); `loadVars` declares the file's variables before the nodes are read,
+  so "nothing changed" is false there, and with `levels=True` the declared levels may leave a
+  gap (F7), so `OrderOK` cannot be claimed in general. -/
+
+/-- C17 (wrong file type): the refusal of `load` for a name that is not `*.p` (`*.json`) is
+decided by the file name alone -/
+theorem C17_load_wrong_filetype (filename : String) :
+    (filename.toLower.endsWith ".p" = false → bddLoadKind filename = .error .value) ∧
+    (filename.toLower.endsWith ".p" = false → filename.toLower.endsWith ".json" = false →
+      autorefLoadKind filename = .error .value) := by
+  refine ⟨fun h => ?_, fun h1 h2 => ?_⟩
+  · unfold bddLoadKind; simp [h]
+  · unfold autorefLoadKind; simp [h1, h2]
 
 end DD
